@@ -14,10 +14,16 @@ def jobs(tier):
             sample="emit_data on one global with symbolic flags, size <= 18, symbolic image and relocation"),
         Job(name="gen_addr-var", src="addr.c", group="C15.7 address formation", mode="plain", cut=CUT, units=["type.c"], unwind=6, unwindset=["strcmp.0:40"], timeout=300, replay=None,
             sample="gen_addr(ND_VAR) over every configuration"),
-        Job(name="refs-primary", src="refs.c", group="C15.1 reference recording", defs={"FN": "0"}, mode="plain", cut=CUT, units=["type.c", "strings.c"], unwind=12, unwindset=["strlen.0:48", "memcmp.0:48", "strcmp.0:48"], timeout=300, replay=None,
+        Job(name="refs-primary", src="refs.c", group="C15.1 reference recording", defs={"FN": "0"}, mode="plain", cut=CUT, units=["type.c"], unwind=12, unwindset=["strlen.0:48", "memcmp.0:48", "strcmp.0:48"], timeout=300, replay=None,
             sample="primary() on a function designator with symbolic linkage flags, inside a function and at file scope"),
-        Job(name="function-attrs", src="refs.c", group="C15.2 linkage attributes", defs={"FN": "1"}, mode="plain", cut=CUT, units=["type.c", "strings.c"], unwind=12, unwindset=["strlen.0:48", "memcmp.0:48", "strcmp.0:48"], timeout=300, replay=None,
+        Job(name="function-attrs", src="refs.c", group="C15.2 linkage attributes", defs={"FN": "1"}, mode="plain", cut=CUT, units=["type.c"], unwind=12, unwindset=["strlen.0:48", "memcmp.0:48", "strcmp.0:48"], timeout=300, replay=None,
             redirect={"declarator": "stub_declarator"}, sample="function() on a first prototype with every static/inline/extern combination"),
+        Job(name="function-redecl", src="refs.c", group="C15.2 linkage attributes", defs={"FN": "2"}, mode="plain", cut=CUT, units=["type.c"], unwind=12, unwindset=["strlen.0:48", "memcmp.0:48", "strcmp.0:48"], timeout=300, replay=None,
+            redirect={"declarator": "stub_declarator"}, sample="function() redeclaring a function with every flag combination"),
+        Job(name="function-def-scope", src="refs.c", group="C15.1 reference recording", defs={"FN": "3"}, mode="plain", cut=CUT, units=["type.c"], unwind=12, unwindset=["strlen.0:48", "memcmp.0:48", "strcmp.0:48"], timeout=300, replay=None,
+            redirect={"declarator": "stub_declarator", "compound_stmt": "stub_compound_stmt"}, sample="function() on a definition with an (abstract) body"),
+        Job(name="scan_globals", src="scan.c", group="C15.4 tentative definitions", defs={"NG": "3"}, mode="plain", cut=CUT, units=["type.c", "strings.c"], unwind=6, unwindset=["strcmp.0:4"], timeout=300, replay=None,
+            bounded="3 file-scope objects over 2 names", sample="scan_globals on every list of 3 objects with symbolic names and flags"),
         Job(name="mark_live", src="marklive.c", group="C15.3 liveness closure", mode="dfcc", enforce="mark_live", rec=True, replace=["find_func"], cut=CUT, units=["type.c"], timeout=300, unwind=4, replay=None,
             sample="mark_live on a function with 0..2 references into a pool of three functions"),
     ]
